@@ -16,12 +16,12 @@ the model validates that it is a permutation of the right set, the theorems hold
 User code is represented by fault scripts (`Blk.f…` flags: the hook raises) and durations.
 The model mirrors the code WITH the repairs patches/C08-run-tasks-cancel.diff (`_run_tasks`
 cancels what it did not await to the end), patches/C04-no-timer-after-stop.diff (a stopped
-FSM arms no timer), patches/C08-wait-init-helper.diff (`wait_init` cancels its helper).
+FSM arms no timer), patches/C08-fsm-timers-from-start.diff (nor does an FSM that was never
+started), patches/C08-wait-init-helper.diff (`wait_init` cancels its helper).
 
-Two behaviours of the code that contradict the property are modelled as they are (known
-findings, see known_findings.json): a 'start' event reaching a timer block that was never
-started arms a timer nobody stops (`arm` only looks at `stopped`), and an OutputAsync block that
-was never initialised loses its stop_data (`outaDelivers`).
+One behaviour of the code that contradicts the property is modelled as it is (known finding,
+see known_findings.json): an OutputAsync block that was never initialised loses its stop_data
+(`outaDelivers`).
 
 Time: natural numbers (the harness uses milliseconds of the virtual clock); instant 0 is the
 moment `run_forever` yields after the `start()` loop.
@@ -235,11 +235,13 @@ def Blk.initialized (b : Blk) (asyncOk : Nat → Bool) (k : Nat) : Bool :=
 structure CState where
   timers : List Nat := []      -- blocks with a pending timer handle
   stopped : List Nat := []     -- blocks whose stop() ran
+  started : List Nat := []     -- blocks whose start() returned (constant)
   deriving Repr, Inhabited
 
-/-- `FSM._set_timer` through a 'start' event to timer block `j` -/
+/-- `FSM._set_timer` through a 'start' event to timer block `j`: `_timers_enabled` is set by
+    `FSM.start()` and cleared by `FSM.stop()` -/
 def arm (bs : List Blk) (s : CState) (j : Nat) : CState :=
-  if (blk bs j).kind == .timer && !s.stopped.contains j then
+  if (blk bs j).kind == .timer && s.started.contains j && !s.stopped.contains j then
     { s with timers := j :: s.timers.filter (· != j) }
   else s
 
@@ -251,7 +253,7 @@ def stopSync (bs : List Blk) (s : CState) (k : Nat) : CState × List Ev :=
       (match b.onSuccess with | some j => arm bs s j | none => s) else s
   let evs := if b.kind == .outf && b.stopData then [Ev.stop k, Ev.out k true] else [Ev.stop k]
   -- FSM.stop: _stop_timer, no timers from now on
-  ({ timers := s1.timers.filter (· != k), stopped := k :: s1.stopped }, evs)
+  ({ timers := s1.timers.filter (· != k), stopped := k :: s1.stopped, started := s1.started }, evs)
 
 def stopSyncAll (bs : List Blk) : CState → List Nat → CState × List Ev
   | s, [] => (s, [])
@@ -295,8 +297,8 @@ structure Cleanup where
   deriving Repr, Inhabited
 
 /-- `_stop_sblocks(started_blocks)` -/
-def stopSblocks (bs : List Blk) (failed : List Nat) (inited : List Nat) (timers0 : List Nat)
-    (oa os : List Nat) : Cleanup :=
+def stopSblocks (bs : List Blk) (failed : List Nat) (inited : List Nat) (started : List Nat)
+    (timers0 : List Nat) (oa os : List Nat) : Cleanup :=
   let stops := oa.map Ev.stop
   -- control tasks of OutputAsync blocks take the stop_data while _stop_sblocks yields
   let outs := (oa.filter (outaDelivers bs inited)).map (Ev.out · true)
@@ -308,7 +310,7 @@ def stopSblocks (bs : List Blk) (failed : List Nat) (inited : List Nat) (timers0
   let r := awaitJobs none 0 (sortJobs (oa.map (stopJob bs failed inited)))
   let saes := (sortEnds (r.1.filter fun e => !immediate bs failed inited e.k)).map
     fun e => Ev.sae e.k (seenRes bs e)
-  let s0 : CState := { timers := timers0, stopped := oa }
+  let s0 : CState := { timers := timers0, stopped := oa, started := started }
   let r2 := stopSyncAll bs s0 os
   { trace := stops ++ outs ++ sabs ++ saes ++ r2.2, st := r2.1, dur := r.2.1 }
 
@@ -419,7 +421,7 @@ def plan (c : Cfg) : Plan :=
   let pass2 : List Nat :=
     if phase == .initFailed || phase == .evalFailed || phase == .running then s2.1 else []
   let putBlocks := putBlocksOf bs started phase
-  let sRun := armAll bs { timers := initTimers bs started pass2, stopped := [] } putBlocks
+  let sRun := armAll bs { timers := initTimers bs started pass2, stopped := [], started := started } putBlocks
   let initDone := phase == .evalFailed || phase == .running
   { startEvs := sl.1, started := started, phase := phase, termTime := tT, isError := term.2.2.1
     initRes := term.2.2.2, failed := failed, inited := pass2
@@ -436,7 +438,7 @@ def finish (c : Cfg) (p : Plan) : Option Result :=
   let bs := c.blocks
   if !(permOf c.oa (setA bs p.started) && permOf c.os (setS bs p.started)) then none
   else
-    let cl := stopSblocks bs p.failed p.inited p.timers c.oa c.os
+    let cl := stopSblocks bs p.failed p.inited p.started p.timers c.oa c.os
     let tasks0 := blockTasks bs p.started p.failed ++ (if p.helper then [Task.helper] else [])
     -- stop_async took the block tasks away; wait_init cancels its helper when the simulation task is done
     let tasks1 := (tasks0.filter fun t => !t.cleanedBy c.oa).filter (· != Task.helper)
